@@ -444,12 +444,24 @@ class Tracker:
         return 0 <= l < len(self.labels)
 
 
+FLAT_GAP_LIMIT = 1 << 13
+DELTA_OP = {"op": "DELTA"}     # "DELTAC" when the tree has the range check of fixes/C03-label-delta-range.patch (decided by a probe per run)
+PROBE_DELTA = ["P x64", "L", "L", "B 0", "G 300", "B 1", "ED 1 0 1", "E"]
+
+
+def probe_delta_checked(impl):
+    rc, out, err = run_lines(impl, PROBE_DELTA, timeout=60)
+    return rc == 0 and len(out) == len(PROBE_DELTA) and out[6].split()[1] == "invalid_disp"
+
+
 def translate(prog, hout):
     """prog: input lines, hout: harness output lines (same length). Returns (model_lines, expected_answers, tracker).
     expected_answers[i] is what the model must print for model_lines[i] (None = do not compare)."""
     arch = prog[0].split()[1]
     tk = Tracker(arch)
-    ml, exp = ["P"], ["P"]
+    # the flat byte-buffer model (proven equivalent) is run alongside unless the program fabricates large gaps
+    gap_total = sum(int(l.split()[1]) for l in prog if l.startswith("G "))
+    ml, exp = ["PF" if gap_total <= FLAT_GAP_LIMIT else "P"], ["P"]
 
     def push(line, h, unres=True):
         # h = harness fields: tag err cursec cursize unres emitted fx
@@ -527,7 +539,13 @@ def translate(prog, hout):
             l, b, size = int(t[1]), int(t[2]), int(t[3])
             if size == 0:
                 size = 4 if arch == "x86" else 8
-            push("DELTA %d %d %d" % (l, b, size), h)
+            push("%s %d %d %d" % (DELTA_OP["op"], l, b, size), h)
+            if err == "invalid_disp":
+                # only right (range-checked tree) for two labels bound in one section whose difference does not fit `size` signed bytes
+                ok = (tk.label_ok(l) and tk.label_ok(b) and tk.labels[l] is not None and tk.labels[b] is not None and tk.labels[l][0] == tk.labels[b][0]
+                      and size < 8 and not -(1 << (8 * size - 1)) <= tk.labels[l][1] - tk.labels[b][1] < (1 << (8 * size - 1)))
+                if not ok:
+                    tk.problems.append(("C03/spurious-error", "%s returned invalid_disp" % inp))
             if err == "ok":
                 imm = (tk.label_ok(l) and tk.label_ok(b) and tk.labels[l] is not None and tk.labels[b] is not None
                        and tk.labels[l][0] == tk.labels[b][0])
@@ -821,10 +839,40 @@ def run_sharded(exe, blocks, shards=16):
     return result
 
 
+def compare_flat(hline, mline):
+    """the FLAT model's byte buffers (printed by the driver after ` | FLAT `) against the implementation's section images"""
+    if " | FLAT " not in mline:
+        return [], 0
+    parts = mline.split(" | ")
+    i = next(k for k, p in enumerate(parts) if p.startswith("FLAT "))
+    head = parts[i].split()
+    diffs = []
+    if head[1] != "0":
+        diffs.append("flat model and structured model disagreed on %s operations (error / size / count)" % head[1])
+    h = parse_dump(hline, True)
+    if int(head[2]) != h["unres"]:
+        diffs.append("flat model unresolved count %s, impl %d" % (head[2], h["unres"]))
+    nbytes = 0
+    for p in parts[i + 1:]:
+        f = p.split()
+        if f[0] != "FSEC":
+            continue
+        k = int(f[1])
+        segs, size = h["raw_segs"].get(k, ("-", 0))
+        want = Image(segs, size).read(0, size) if size else b""
+        got = bytes.fromhex(f[2]) if f[2] != "-" else b""
+        nbytes += len(got)
+        if got != want:
+            j = next((x for x in range(min(len(got), len(want))) if got[x] != want[x]), min(len(got), len(want)))
+            diffs.append("section %d: flat-model bytes differ from the implementation at +%d (impl %s.. flat model %s..; sizes %d/%d)"
+                         % (k, j, (want or b"")[j:j + 8].hex(), got[j:j + 8].hex(), len(want or b""), len(got)))
+    return diffs, nbytes
+
+
 def compare_dumps(hline, mline):
     """canonical comparison of the final states; returns list of differences"""
     h = parse_dump(hline, True)
-    m = parse_dump(mline, False)
+    m = parse_dump(mline.split(" | FLAT ")[0], False)
     diffs = []
     if h["unres"] != m["unres"]:
         diffs.append("unresolved count impl %d model %d" % (h["unres"], m["unres"]))
@@ -875,6 +923,10 @@ def check_programs(ck, impl, model, programs):
                 if want is None:
                     if line == "DUMP":
                         res["diffs"] += compare_dumps(hout[-1], got)
+                        fd, nb = compare_flat(hout[-1], got)
+                        res["diffs"] += fd
+                        stats["flat_model_programs"] = stats.get("flat_model_programs", 0) + (1 if " | FLAT " in got else 0)
+                        stats["flat_model_bytes"] = stats.get("flat_model_bytes", 0) + nb
                     continue
                 if want != got:
                     res["diffs"].append("op %r: impl %r, model %r" % (line[:120], want, got))
@@ -951,6 +1003,9 @@ def run(ck):
         return 0
 
     programs = Gen(rng, ck.tier).programs()
+    DELTA_OP["op"] = "DELTAC" if probe_delta_checked(impl) else "DELTA"
+    ck.notes.append("embed_label_delta immediate path: %s" % ("range-checked (model operation ODeltaChecked)" if DELTA_OP["op"] == "DELTAC"
+                                                               else "unchecked (model operation ODelta; truncation is a recorded finding)"))
     fixed, pout = probe_xsection_bound(impl)
     if not fixed:
         ck.violation("C03/xsection-ref-to-bound-label",
